@@ -61,7 +61,10 @@ GATES_1Q = ["H", "X", "Y", "Z", "S", "T", "SX"]
 class Builder:
     """Builds random circuits through the public API, logging the program."""
 
-    def __init__(self, rng, lw, *, loss_p=0.15, param_p=0.0, allow=None, max_herald_photons=2):
+    def __init__(self, rng, lw, *, loss_p=0.15, param_p=0.0, allow=None, max_herald_photons=2,
+                 on_add=None):
+        self.on_add = on_add
+        self.last = None            # description of the API call being attempted
         self.rng, self.lw = rng, lw
         self.loss_p = loss_p
         self.param_p = param_p
@@ -95,9 +98,11 @@ class Builder:
             if "loss" in self.allow and rng.random() < self.loss_p:
                 loss = pick_unit(rng)
             if rng.random() < 0.15 and b == a + 1 and loss == 0 and conv == "Rx":
+                self.last = ['bs', a, None, rl, conv, 0, self.state(c)]
                 c.bs(a, reflectivity=r)
                 log.append(["bs", a, None, rl, conv, 0])
             else:
+                self.last = ['bs', a, b, rl, conv, loss, self.state(c)]
                 c.bs(a, b, r, loss, conv)
                 log.append(["bs", a, b, rl, conv, loss])
         elif kind == "ps":
@@ -106,24 +111,29 @@ class Builder:
             loss = 0
             if "loss" in self.allow and rng.random() < self.loss_p:
                 loss = pick_unit(rng)
+            self.last = ['ps', m, pl, loss, self.state(c)]
             c.ps(m, phi, loss)
             log.append(["ps", m, pl, loss])
         elif kind == "loss":
             m = int(rng.integers(n))
             l, ll = self._maybe_param(pick_unit(rng))
+            self.last = ['loss', m, ll, self.state(c)]
             c.loss(m, l)
             log.append(["loss", m, ll])
         elif kind == "barrier":
             if rng.random() < 0.5:
+                self.last = ['barrier', None, self.state(c)]
                 c.barrier()
                 log.append(["barrier", None])
             else:
                 k = int(rng.integers(1, n + 1))
                 modes = sorted(rng.choice(n, size=k, replace=False).tolist())
+                self.last = ['barrier', modes, self.state(c)]
                 c.barrier(modes)
                 log.append(["barrier", modes])
         elif kind == "swaps":
             d = random_swaps(rng, n)
+            self.last = ['swaps', d, self.state(c)]
             c.mode_swaps(d)
             log.append(["swaps", d])
         elif kind == "unitary":
@@ -131,9 +141,16 @@ class Builder:
             m = int(rng.integers(0, n - k + 1))
             seed = int(rng.integers(1 << 30))
             u = haar(np.random.default_rng(seed), k)
+            self.last = ['unitary', m, k, seed, self.state(c)]
             c.add(self.lw.Unitary(u), m)
             log.append(["unitary", m, k, seed])
         return kind
+
+    @staticmethod
+    def state(c) -> dict:
+        """Public state of the receiver just before a call (for witnesses)."""
+        return {"n_modes": c.n_modes, "numbered": c.n_modes - len(c._internal_modes),
+                "heralds_in": dict(c.heralds["input"]), "ancillas": sorted(c._internal_modes)}
 
     @staticmethod
     def numbered(c) -> int:
@@ -172,9 +189,11 @@ class Builder:
             if rng.random() < 0.5:
                 nph = min(nph, 1)
             if i == o and rng.random() < 0.5:
+                self.last = ['herald', nph, int(i), None, self.state(c)]
                 c.herald(nph, int(i))
                 log.append(["herald", nph, int(i), None])
             else:
+                self.last = ['herald', nph, int(i), int(o), self.state(c)]
                 c.herald(nph, int(i), int(o))
                 log.append(["herald", nph, int(i), int(o)])
 
@@ -218,6 +237,9 @@ class Builder:
                 continue
             m = int(rng.integers(0, nn - k + 1))
             group = bool(rng.random() < group_p)
+            if self.on_add is not None:
+                self.on_add(c, child, m, group)
+            self.last = ['add', sub_log, m, group, self.state(c)]
             c.add(child, m, group)
             log.append(["add", sub_log, m, group])
         if rng.random() < direct_heralds_p:
